@@ -429,6 +429,10 @@ func (sp instrSpec) instruction() (crhp3.Instruction, error) {
 		return &crhp3.InstrRevision{}, nil
 	case "RR":
 		return &crhp3.InstrReadRegistry{PublicKeyOffset: sp.arg(0), PublicKeyLength: sp.arg(1), TweakOffset: sp.arg(2), Version: uint8(sp.arg(3))}, nil
+	case "RN": // pre-1.5.7 encoding without the version byte (the host sets version 1)
+		return &crhp3.InstrReadRegistryNoVersion{InstrReadRegistry: crhp3.InstrReadRegistry{PublicKeyOffset: sp.arg(0), PublicKeyLength: sp.arg(1), TweakOffset: sp.arg(2)}}, nil
+	case "UN": // pre-1.5.7 encoding without the entry type byte (the host sets the arbitrary type)
+		return &crhp3.InstrUpdateRegistryNoType{InstrUpdateRegistry: crhp3.InstrUpdateRegistry{TweakOffset: sp.arg(0), RevisionOffset: sp.arg(1), SignatureOffset: sp.arg(2), PublicKeyOffset: sp.arg(3), PublicKeyLength: sp.arg(4), DataOffset: sp.arg(5), DataLength: sp.arg(6)}}, nil
 	case "UR":
 		return &crhp3.InstrUpdateRegistry{TweakOffset: sp.arg(0), RevisionOffset: sp.arg(1), SignatureOffset: sp.arg(2), PublicKeyOffset: sp.arg(3), PublicKeyLength: sp.arg(4), DataOffset: sp.arg(5), DataLength: sp.arg(6), EntryType: uint8(sp.arg(7))}, nil
 	}
@@ -776,20 +780,24 @@ func (w *hostWorld) doX3(p vhlib.ParsedLine) string {
 	}
 	before := w.snapshot()
 	duration := w.currentRevision().Revision.WindowEnd - w.pt.HostBlockHeight
-	var costs, stor []string
+	var costs, stor, cstor []string
 	for _, sp := range specs {
-		c, st, ok := w.instrCost(sp, pd, duration)
+		c, st, cst, ok := w.instrCost(sp, pd, duration)
 		if !ok {
 			return "res=badcase why=cost_overflow_in_harness"
 		}
-		costs, stor = append(costs, c), append(stor, st)
+		costs, stor, cstor = append(costs, c), append(stor, st), append(cstor, cst)
+	}
+	if w.pre != nil {
+		// kept on the line even if the host dies while serving the program
+		w.pre(fmt.Sprintf("init=%s costs=%s stor=%s cstor=%s bal0=%s", w.pt.InitBaseCost.ExactString(), vhlib.FmtList(costs), vhlib.FmtList(stor), vhlib.FmtList(cstor), before.bal.ExactString()))
 	}
 	r, err := w.runProgram(prog, pd, p.U64("fcid") == 1, pay, budget, fin, needFin, p.List("mut"))
 	if errors.Is(err, errHang) {
 		return "res=hang " + snapObs(before, w.snapshot())
 	}
 	for _, sp := range specs {
-		if sp.mn == "RR" && r.res == "accept" {
+		if (sp.mn == "RR" || sp.mn == "RN") && r.res == "accept" {
 			w.poisoned = true
 		}
 	}
@@ -800,7 +808,7 @@ func (w *hostWorld) doX3(p vhlib.ParsedLine) string {
 		ref, dirty := w.unsyncedReferenced(r.roots)
 		syncObs = fmt.Sprintf(" unsynced=%d dirty=%d", ref, dirty)
 	}
-	return fmt.Sprintf("res=%s k=%d outlens=%s init=%s costs=%s stor=%s %s%s", r.res, r.k, vhlib.FmtList(r.outlens), w.pt.InitBaseCost.ExactString(), vhlib.FmtList(costs), vhlib.FmtList(stor), snapObs(before, after), syncObs)
+	return fmt.Sprintf("res=%s k=%d outlens=%s init=%s costs=%s stor=%s cstor=%s %s%s", r.res, r.k, vhlib.FmtList(r.outlens), w.pt.InitBaseCost.ExactString(), vhlib.FmtList(costs), vhlib.FmtList(stor), vhlib.FmtList(cstor), snapObs(before, after), syncObs)
 }
 
 // refU64 reads an operand the way a correct accessor would (0 when out of range).
@@ -813,7 +821,7 @@ func refU64(pd []byte, off uint64) uint64 {
 
 // instrCost is the price the host charges for the instruction (total, refundable storage part),
 // computed with core's price-table functions from the operands as the host reads them.
-func (w *hostWorld) instrCost(sp instrSpec, pd []byte, duration uint64) (total, storage string, ok bool) {
+func (w *hostWorld) instrCost(sp instrSpec, pd []byte, duration uint64) (total, storage, costStorage string, ok bool) {
 	var rc crhp3.ResourceCost
 	refund := true
 	panicked, _ := vhlib.Try(func() {
@@ -838,23 +846,23 @@ func (w *hostWorld) instrCost(sp instrSpec, pd []byte, duration uint64) (total, 
 			rc = w.pt.StoreSectorCost(sp.arg(1))
 		case "RV":
 			rc = w.pt.RevisionCost()
-		case "RR", "UR":
+		case "RR", "UR", "RN", "UN":
 			rc = w.pt.ReadRegistryCost()
 			refund = false // booked as RegistryRead/RegistryWrite usage, which rollback() does not refund
 		}
 	})
 	if panicked {
-		return "0", "0", false
+		return "0", "0", "0", false
 	}
 	var t types.Currency
 	if p, _ := vhlib.Try(func() { t, _ = rc.Total() }); p {
-		return "0", "0", false
+		return "0", "0", "0", false
 	}
 	st := rc.Storage
 	if !refund {
 		st = types.ZeroCurrency
 	}
-	return t.ExactString(), st.ExactString(), true
+	return t.ExactString(), st.ExactString(), rc.Storage.ExactString(), true
 }
 
 func parseCurrency(s string) (types.Currency, bool) {
